@@ -872,16 +872,16 @@ class GaussianState(State):
                 positions,
                 momentums,
                 d=reduced_state.d,
-                mean=reduced_state.xpxp_mean_vector,
-                cov=reduced_state.xpxp_covariance_matrix,
+                mean=reduced_state.xxpp_mean_vector,
+                cov=reduced_state.xxpp_covariance_matrix,
             )
 
         return gaussian_wigner_function(
             positions,
             momentums,
             d=self.d,
-            mean=self.xpxp_mean_vector,
-            cov=self.xpxp_covariance_matrix,
+            mean=self.xxpp_mean_vector,
+            cov=self.xxpp_covariance_matrix,
         )
 
     def plot_wigner(
